@@ -202,7 +202,7 @@ def r3_entry_point_last(cx):
 def r4_witness(cx):
     """compile-fail witness: using a recipient after close_file does not type-check (E0382)"""
     import witness
-    for name, ok, detail in witness.run(["c09_close_consumes"], repo=os.environ.get("JBK_REPO_OVERRIDE") or cx.F.path and None):
+    for name, ok, detail in witness.run(["c09_close_consumes"], repo=cx.repo):
         cx.ob("R4", "R4/%s" % name, ok, "/verif/witness/src/lib.rs", detail)
 
 
@@ -212,4 +212,5 @@ RULES = [
     ("R1", r1_who_may, 6),
     ("R2", r2_temp_dir, 2),
     ("R3", r3_entry_point_last, 12),
+    ("R4", r4_witness, 1),
 ]
